@@ -33,6 +33,13 @@ func init() {
 	replayers["filter"] = func(r *Run, f []string) string {
 		if len(f) >= 3 && f[0] == "filter" {
 			name := unhexField(f[1])
+			if name == dateFilterName { // with the date oracle (stream_filter_date.go)
+				args := make([]*V, 0, len(f))
+				for _, a := range f[3:] {
+					args = append(args, ParseV(a))
+				}
+				return dateFilterCase(r, strings.Join(f, " "), ParseV(f[2]), args)
+			}
 			for _, jn := range jsonFilterNames {
 				if name == jn { // with the json oracle (stream_filter_json.go)
 					args := make([]*V, 0, len(f))
@@ -273,6 +280,8 @@ func filterStream(r *Run) {
 	}
 	// json, inspect, type (stream_filter_json.go)
 	jsonFilterCases(r, NewRNG(r.Seed, "filter-json"))
+	// date, time printing, ParseDate (stream_filter_date.go)
+	dateFilterCases(r, NewRNG(r.Seed, "filter-date"))
 }
 
 // randomNumberV: a number in some Go representation, or a string spelling one.
